@@ -2,66 +2,139 @@
   Helper lemmas for C13 (documented extensions, on the evaluator model). Statements used by JP/Props/C13.lean.
 -/
 import JP.Lemmas.QueryDefs
+import JP.Lemmas.Filter
 namespace JP.Lemmas
 open JP JP.Query
+
+/-! ### Auxiliary list facts -/
+
+theorem ext_enumFrom_map_snd {α β} (f : α → β) (xs : List α) (i : Nat) :
+    (enumFrom i xs).map (fun p => f p.2) = xs.map f := by
+  induction xs generalizing i with
+  | nil => rfl
+  | cons x xs ih => simp only [enumFrom, List.map_cons, ih]
+
+theorem ext_filterMap_ite {α β} (p : α → Bool) (f : α → β) (xs : List α) :
+    xs.filterMap (fun x => if p x = true then some (f x) else none) = (xs.filter p).map f := by
+  induction xs with
+  | nil => rfl
+  | cons x xs ih =>
+    cases h : p x
+    · simp only [List.filterMap_cons, h, List.filter_cons, ih]
+      simp
+    · simp only [List.filterMap_cons, h, List.filter_cons, ih]
+      simp
 
 theorem keys_spec (env : Env) (n : Node) :
     (evalSel env n .keys).map (·.val) =
       (match n.val with
        | .obj kvs => kvs.map (fun kv => J.str kv.1)
        | _ => []) := by
-  sorry
+  rw [evalSel]
+  cases h : n.val with
+  | obj kvs =>
+    simp only [List.map_map]
+    exact ext_enumFrom_map_snd (fun kv : Str × J => J.str kv.1) kvs 0
+  | _ => rfl
 
 theorem fake_root_spec (rx : Rx) (segs : List Seg) (doc extra : J) :
     (finditer rx ⟨segs, true⟩ doc extra).map (·.val) =
       (evalSegs { rx := rx, root := doc, extra := extra } segs [⟨[], ['$'], .arr [doc]⟩]).map (·.val) := by
-  sorry
+  rfl
 
 theorem fake_root_in_filter (env : Env) (cur : J) (key : Option Part) (q : List Seg) :
     evalExpr env cur key (.root q true) = .nodes (evalSegs env q [⟨[], env.rootTok, .arr [env.root]⟩]) := by
-  sorry
+  rw [evalExpr]; rfl
 
 theorem current_key_spec (env : Env) (cur : J) :
     (∀ k, evalExpr env cur (some (.key k)) .key = .val (.str k)) ∧
     (∀ i, evalExpr env cur (some (.idx i)) .key = .val (.int i)) ∧
     evalExpr env cur none .key = .undef := by
-  sorry
+  refine ⟨fun k => ?_, fun i => ?_, ?_⟩ <;> rw [evalExpr]
 
 theorem filter_binds_current_key (env : Env) (n : Node) (e : Expr) (kvs : List (Str × J)) (xs : List J) :
     (n.val = .obj kvs → (evalSel env n (.filter e)).map (·.val) =
         (kvs.filter (fun kv => isTruthy (evalExpr env kv.2 (some (.key kv.1)) e))).map (·.2)) ∧
     (n.val = .arr xs → (evalSel env n (.filter e)).map (·.val) =
         ((enumFrom 0 xs).filter (fun iv => isTruthy (evalExpr env iv.2 (some (.idx iv.1)) e))).map (·.2)) := by
-  sorry
+  constructor
+  · intro h
+    rw [evalSel, h]
+    simp only
+    rw [ext_filterMap_ite (fun kv : Str × J => isTruthy (evalExpr env kv.2 (some (.key kv.1)) e))
+      (fun kv : Str × J => childNode n (.key kv.1) (bracket (canonicalString kv.1)) kv.2) kvs]
+    rw [List.map_map]; rfl
+  · intro h
+    rw [evalSel, h]
+    simp only
+    rw [ext_filterMap_ite (fun iv : Nat × J => isTruthy (evalExpr env iv.2 (some (.idx iv.1)) e))
+      (fun iv : Nat × J => childNode n (.idx iv.1) (bracket (natStr iv.1)) iv.2) (enumFrom 0 xs)]
+    rw [List.map_map]; rfl
 
 theorem filter_context_any_depth (env : Env) (cur : J) (key : Option Part) (q : List Seg) :
     evalExpr env cur key (.ctx q) = .nodes (evalSegs env q [⟨[], env.rootTok, env.extra⟩]) := by
-  sorry
+  rw [evalExpr]
 
 theorem in_contains_converse (rx : Rx) (a b : V) :
     compare rx a .in_ b = compare rx b .contains a := by
-  sorry
+  rfl
 
 theorem membership_spec (rx : Rx) (item : J) :
     (∀ xs, compare rx (.val item) .in_ (.val (.arr xs)) = xs.any (fun x => pyEq item x)) ∧
     (∀ s t, compare rx (.val (.str t)) .in_ (.val (.str s)) = isInfix t s) ∧
     (∀ kvs k, compare rx (.val (.str k)) .in_ (.val (.obj kvs)) = dictHas kvs k) := by
-  sorry
+  refine ⟨fun xs => ?_, fun s t => ?_, fun kvs k => ?_⟩ <;> rfl
 
 theorem isInfix_spec (t s : Str) : isInfix t s = true ↔ ∃ pre post, s = pre ++ t ++ post := by
-  sorry
+  induction s with
+  | nil =>
+    simp only [isInfix, List.isEmpty_iff]
+    constructor
+    · intro h; exact ⟨[], [], by simp [h]⟩
+    · rintro ⟨pre, post, h⟩
+      have h' := congrArg List.length h
+      simp only [List.length_nil, List.length_append] at h'
+      exact List.eq_nil_of_length_eq_zero (by omega)
+  | cons c cs ih =>
+    simp only [isInfix, Bool.or_eq_true, ih, List.isPrefixOf_iff_prefix]
+    constructor
+    · rintro (⟨post, h⟩ | ⟨pre, post, h⟩)
+      · exact ⟨[], post, by simp [h]⟩
+      · exact ⟨c :: pre, post, by simp [h]⟩
+    · rintro ⟨pre, post, h⟩
+      cases pre with
+      | nil => left; exact ⟨post, by simpa using h.symm⟩
+      | cons d pre =>
+        right
+        simp only [List.cons_append, List.cons.injEq] at h
+        exact ⟨pre, post, h.2⟩
 
 theorem regex_fullmatch_flags (rx : Rx) (p f s : Str) :
     compare rx (.val (.str s)) .re (.rx p f) = (rx.fullmatch p f s).getD false := by
-  sorry
+  rfl
 
 theorem lg_eq_ne (rx : Rx) (a b : V) : compare rx a .lg b = compare rx a .ne b := by
-  sorry
+  rfl
 
 theorem undefined_singular (env : Env) (cur : J) (key : Option Part) (q : List Seg)
     (hs : Rfc.singularSegs q = true) :
     evalExpr env cur key (.infix (.self q) .eq .undefined) = .val (.bool (!isTruthy (evalExpr env cur key (.self q)))) ∧
     evalExpr env cur key (.infix (.self q) .ne .undefined) = .val (.bool (isTruthy (evalExpr env cur key (.self q)))) := by
-  sorry
+  have hle := singular_at_most_one env q ⟨[], env.rootTok, cur⟩ hs
+  have hself : evalExpr env cur key (.self q) = .nodes (evalSegs env q [⟨[], env.rootTok, cur⟩]) := by
+    rw [evalExpr]
+  have hund : evalExpr env cur key .undefined = .undef := by rw [evalExpr]
+  generalize hns : evalSegs env q [⟨[], env.rootTok, cur⟩] = ns at hle hself
+  constructor
+  · rw [evalExpr, hself, hund]
+    match ns, hle with
+    | [], _ => rfl
+    | [n], _ => rfl
+    | _ :: _ :: _, h => simp at h
+  · rw [evalExpr, hself, hund]
+    match ns, hle with
+    | [], _ => rfl
+    | [n], _ => rfl
+    | _ :: _ :: _, h => simp at h
 
 end JP.Lemmas
